@@ -283,13 +283,21 @@ def e2e_rule_sessions(chk, binp):
             done = runner.run_session(sess, chk.count)
             chk.count("listener_verdicts_on_kept_connections", len(done))
 
+        for c_ in pipegen.process_name_cases(callers):
+            runner.run_case(c_)
+            chk.count("listener_verdicts_long_process_names")
+
         def oracle(chk_, o, m):
             doc = o["case"]["env"]["imds"]
-            granted = doc["rules"]["privileges"][0]["queryParameters"]["resource"]
-            q = o["req"]["target"].split("resource=")[1].split("&")[0]
-            allowed = q.lower() == granted or doc["mode"] == "audit"
             relayed = sum(o["bytes"].values()) > 0
-            chk_.case(nontrivial_key=("listener", doc["id"], q, relayed, o.get("session_index")))
+            if doc["id"].startswith("q-"):
+                granted = doc["rules"]["privileges"][0]["queryParameters"]["resource"]
+                q = o["req"]["target"].split("resource=")[1].split("&")[0]
+                allowed = q.lower() == granted or doc["mode"] == "audit"
+            else:
+                # the declared semantics as the Lean specification computes them for this document, caller and URL
+                allowed = bool(m.get("spec_may_relay"))
+            chk_.case(nontrivial_key=("listener", doc["id"], o["req"]["target"], relayed, o.get("session_index")))
             if relayed != allowed:
                 chk_.violation("decision differs from the declared rule semantics", pipe.Runner.describe(None, o),
                                expected="relayed" if allowed else "refused", observed="relayed" if relayed else "refused")
@@ -311,6 +319,14 @@ def run(chk):
         return
     if dok:
         e2e_rule_sessions(chk, binp)
+        # the rule set in force refuses everybody, and the task holding it dies: nobody is let through for that
+        import pipe
+        for first in ("imds", "ws-elevated"):
+            for ob in pipe.rules_lookup_fails(binp, chk.count, first):
+                chk.case(nontrivial_key=("rules-lookup-fails", first, ob["label"], ob["elevated"], ob["actor"], ob["status"]))
+                if ob["upstream_bytes"]:
+                    chk.violation("decision differs from the declared rule semantics", ob, expected="refused (the rule set in force denies everything)",
+                                  observed="relayed")
     n = 2500 if chk.tier == "quick" else 120000
     cases = []
     st = {}
